@@ -779,6 +779,35 @@ def totals(dat):
     return tot
 
 
+def oracle_data_files(ctx, kind, s, t, dat, sinc, mapping, colmapping, res):
+    """t2data.transfer_from with the two initial-conditions file names: the file written must hold the states
+    that t2incon.transfer_from gives in memory (values as the file format prints them)"""
+    import t2data, t2incons
+    out = []
+    src_file, new_file = str(ctx.tmp / 'src.incon'), str(ctx.tmp / 'new.incon')
+    quiet(sinc.write, src_file)
+    new = t2data.t2data()
+    try:
+        quiet(new.transfer_from, dat, s, t, [], [], src_file, new_file)
+    except Exception as e:
+        return [dict(key='data_transfer-files-raises:%s' % type(e).__name__,
+                     what='t2data.transfer_from with incon files raises %s(%s) although the in-memory transfer works' % (type(e).__name__, e),
+                     case=case_of(kind, s, t))]
+    got = quiet(t2incons.t2incon, new_file)
+    reread = quiet(t2incons.t2incon, src_file)
+    want = t2incons.t2incon()
+    quiet(want.transfer_from, reread, s, t, dict(mapping), dict(colmapping))
+    a = [(b.block, [float(x) for x in b.variable], b.porosity) for b in got._blocklist]
+    b_ = [(b.block, [float(x) for x in b.variable], b.porosity) for b in want._blocklist]
+    same = len(a) == len(b_) and all(x[0] == y[0] and len(x[1]) == len(y[1]) and all(close(p, q, 1e-9) for p, q in zip(x[1], y[1]))
+                                     and ((x[2] is None) == (y[2] is None)) and (x[2] is None or close(x[2], y[2], 1e-8))
+                                     for x, y in zip(a, b_))
+    if not same:
+        out.append(dict(key='data_transfer-incon-file', what='the initial-conditions file written by t2data.transfer_from differs from the transferred states',
+                        case=case_of(kind, s, t)))
+    return out
+
+
 def oracle_data_identity(kind, g, dat, top, bot, rename, preserve, res):
     """transfer a model onto an identical geometry: every generator and the totals are preserved"""
     import t2data
@@ -808,7 +837,7 @@ def oracle_data_identity(kind, g, dat, top, bot, rename, preserve, res):
     return out, new
 
 
-def real_data_transfer(dat, s, t, top, bot, rename, preserve, real):
+def real_data_transfer(dat, s, t, top, bot, rename, preserve, real, empty_maps=False):
     """the real t2data transfer, whole and by parts (each public method separately)"""
     import t2data, t2grids
     out = {}
@@ -832,7 +861,10 @@ def real_data_transfer(dat, s, t, top, bot, rename, preserve, real):
     part = t2data.t2data()
     part.grid = quiet(t2grids.t2grid().fromgeo, t)
     try:
-        quiet(part.transfer_generators_from, dat, s, t, top, bot, m, cm, rename, preserve)
+        if empty_maps:      # the method computes the mappings itself
+            quiet(part.transfer_generators_from, dat, s, t, top, bot, {}, {}, rename, preserve)
+        else:
+            quiet(part.transfer_generators_from, dat, s, t, top, bot, m, cm, rename, preserve)
         out['gens'] = ('ok', canon_gens_real(part, dat))
     except Exception as e:
         out['gens'] = ('exc', type(e).__name__)
@@ -942,6 +974,25 @@ def pair_key(s, t):
     return hashlib.sha256((' '.join(geo_tokens(s)) + '|' + ' '.join(geo_tokens(t))).encode()).hexdigest()[:16]
 
 
+def block_mapping_without_scipy(s, t):
+    """the same call with `from scipy.spatial import cKDTree` failing: the numpy argmin fallback of column_mapping"""
+    import sys
+    saved = {k: sys.modules.get(k, 'absent') for k in ('scipy.spatial', 'scipy')}
+    sys.modules['scipy.spatial'] = None
+    try:
+        try:
+            m, cm = quiet(s.block_mapping, t, True)
+            return ('ok', m, cm)
+        except Exception as e:
+            return ('exc', type(e).__name__)
+    finally:
+        for k, v in saved.items():
+            if v == 'absent':
+                sys.modules.pop(k, None)
+            else:
+                sys.modules[k] = v
+
+
 def explicit_maps(s, t):
     """block/column mappings for the two combinations on which block_mapping itself fails, built through
     the public API from a copy of the target without atmosphere blocks (same underground blocks)"""
@@ -957,41 +1008,46 @@ ANCHORED = [('mulgrids', 'mulgrid', ['column_mapping', 'layer_mapping', 'block_m
 
 
 def run(ctx, scale=1.0, only_oracle=False):
-    """thorough tier: the same run under `coverage`, to record which lines of the anchored functions were executed"""
-    cov = None
+    res = run_inner(ctx, scale, only_oracle)
     if not ctx.quick and not only_oracle:
-        try:
-            import coverage
-            cov = coverage.Coverage(data_file=None, include=[str(core.REPO / f) for f in ('mulgrids.py', 't2incons.py', 't2data.py')])
-            cov.start()
-        except Exception as e:
-            ctx.notes.append('coverage unavailable: %s' % e)
-            cov = None
-    try:
-        res = run_inner(ctx, scale, only_oracle)
-    finally:
-        if cov is not None:
-            cov.stop()
-    if cov is not None:
-        import inspect, importlib
-        reach = {}
-        for modname, cls, fns in ANCHORED:
-            mod = importlib.import_module(modname)
-            try:
-                _, executable, _, missing, _ = cov.analysis2(mod.__file__)
-            except Exception as e:
-                ctx.notes.append('coverage analysis failed: %s' % e)
-                continue
-            executable, missing = set(executable), set(missing)
-            for fn in fns:
-                src, start = inspect.getsourcelines(getattr(getattr(mod, cls), fn))
-                lines = set(range(start + 1, start + len(src))) & executable      # body lines (the def line runs at import)
-                miss = sorted(lines & missing)
-                reach['%s.%s.%s' % (modname, cls, fn)] = {'executable_lines': len(lines), 'executed': len(lines) - len(miss),
-                                                         'not_executed': miss}
-        res.reach = reach
-        EVIDENCE_EXTRA['measured_reach'] = reach
+        measure_reach(ctx, res)
     return res
+
+
+def measure_reach(ctx, res):
+    """thorough tier: a quick-sized oracle-only pass under `coverage`, to record which lines of the anchored
+    functions the generators execute (a line never executed cannot be noticed when it changes)"""
+    try:
+        import coverage
+    except Exception as e:
+        ctx.notes.append('coverage unavailable: %s' % e)
+        return
+    import inspect, importlib
+    cov = coverage.Coverage(data_file=None, include=[str(core.REPO / f) for f in ('mulgrids.py', 't2incons.py', 't2data.py')])
+    c2 = core.Ctx(ctx.prop, 'quick', ctx.seed)
+    c2.model_ok = False
+    cov.start()
+    try:
+        run_inner(c2, only_oracle=True)
+    finally:
+        cov.stop()
+        c2.cleanup()
+    reach = {}
+    for modname, cls, fns in ANCHORED:
+        mod = importlib.import_module(modname)
+        try:
+            _, executable, _, missing, _ = cov.analysis2(mod.__file__)
+        except Exception as e:
+            ctx.notes.append('coverage analysis failed: %s' % e)
+            continue
+        executable, missing = set(executable), set(missing)
+        for fn in fns:
+            src, start = inspect.getsourcelines(getattr(getattr(mod, cls), fn))
+            lines = set(range(start + 1, start + len(src))) & executable      # body lines (the def line runs at import)
+            miss = sorted(lines & missing)
+            reach['%s.%s.%s' % (modname, cls, fn)] = {'executable_lines': len(lines), 'executed': len(lines) - len(miss),
+                                                     'not_executed': miss}
+    EVIDENCE_EXTRA['measured_reach (quick-sized pass, this seed)'] = reach
 
 
 def run_inner(ctx, scale=1.0, only_oracle=False):
@@ -1100,9 +1156,18 @@ def run_inner(ctx, scale=1.0, only_oracle=False):
                 res.violations += v
                 res.count('data:identity-oracle')
                 ident_jobs.append((dat, top, bot))
-            dres = real_data_transfer(dat, s, t, top, bot, rename, preserve, real)
+            if npairs % 7 == 3 and real[0] == 'ok' and s.convention != 3 and t.convention != 3 and inc_jobs \
+                    and (s.atmosphere_type, t.atmosphere_type) != (2, 1) \
+                    and all(mulgrids.valid_blockname(b) for g in (s, t) for b in g.block_name_list):
+                # (names the incon reader rejects — convention 3, left-justified — are C13/C17's subject; 2 -> 1 fails in transfer_rocktypes_from)
+                res.violations += oracle_data_files(ctx, kind, s, t, dat, inc_jobs[0][0], real[1], real[2], res)
+                res.count('data:transfer_from with incon files')
+            empty_maps = npairs % 4 == 0
+            dres = real_data_transfer(dat, s, t, top, bot, rename, preserve, real, empty_maps)
             res.count('data:transfer_from:' + (dres['full'][0] if dres['full'][0] == 'ok' else dres['full'][1]))
-            dat_jobs.append((dat, top, bot, rename, preserve, dres))
+            if empty_maps:
+                res.count('data:transfer_generators_from computing its own mappings')
+            dat_jobs.append((dat, top, bot, rename, preserve, dres, empty_maps))
         if only_oracle or not ctx.model_ok:
             if npairs % 40 == 1:
                 res.sample({'kind': kind, 'source': repr(s), 'target': repr(t), 'block_mapping': real[0] if real[0] == 'ok' else real})
@@ -1149,6 +1214,17 @@ def run_inner(ctx, scale=1.0, only_oracle=False):
                             'real': re_[0] if re_[0] == 'exc' else ('ok', re_[1][:3]), 'model': mo[0] if mo[0] == 'exc' else ('ok', mo[1][:3])})
         npairs_box = [npairs]
         ask(['bm'] + qt + gs + gt, c_bm)
+        if npairs % 5 == 2 and not info['tie']:
+            real2 = block_mapping_without_scipy(s, t)
+            res.count('block_mapping without scipy (argmin fallback)')
+
+            def c_bm2(line, kind=kind, s=s, t=t, real2=real2, real=real):
+                f_bm['cases'] += 1
+                mo, re_ = canon_bm_model(line), canon_bm_real(real2)
+                if mo != re_ or re_ != canon_bm_real(real):
+                    disagree('block_mapping', f_bm, case_of(kind, s, t, {'q': 'first', 'scipy': False}), mo[0] if mo[0] == 'ok' else mo,
+                             re_[0] if re_[0] == 'ok' else re_)
+            ask(['bm', 'first'] + gs + gt, c_bm2)
         # --- model: incon transfer
         for sinc, mp, cmp_, r, explicit in inc_jobs:
             def c_inc(line, kind=kind, s=s, t=t, sinc=sinc, r=r, explicit=explicit):
@@ -1182,7 +1258,7 @@ def run_inner(ctx, scale=1.0, only_oracle=False):
                 res.count('generators in identity transfers satisfying genPlaced', int(a[1]))
             ask(toks, c_genhyp)
         # --- model: generators, rock types, print block, incon dict
-        for dat, top, bot, rename, preserve, dres in dat_jobs:
+        for dat, top, bot, rename, preserve, dres, empty_maps in dat_jobs:
             if real[0] != 'ok':
                 continue
             m, cm = real[1], real[2]
@@ -1193,7 +1269,8 @@ def run_inner(ctx, scale=1.0, only_oracle=False):
                     + dictq_tokens([(b.name, b.volume) for b in dat.grid.blocklist])
                     + dictq_tokens([(b.name, b.volume) for b in tgrid.blocklist])
                     + list_tokens(incols, str) + list_tokens(top) + list_tokens(bot)
-                    + dict_tokens(m) + dict_tokens(cm) + ['1' if rename else '0', '1' if preserve else '0'])
+                    + (dict_tokens({}) + dict_tokens({}) if empty_maps else dict_tokens(m) + dict_tokens(cm))
+                    + ['1' if rename else '0', '1' if preserve else '0'])
 
             def c_gen(line, kind=kind, s=s, t=t, dat=dat, dres=dres['gens'], rename=rename, preserve=preserve):
                 f_dat['cases'] += 1
